@@ -229,6 +229,15 @@ pub fn run(ctx: &mut Ctx) {
         thread_local! { static T: Tables = Tables::build(); }
         T.with(|t| oracle(t, g, p))
     });
+    if ctx.tier == crate::Tier::Thorough && ctx.violations().is_empty() {
+        for bytes in crate::fuzzrun::campaign(ctx, "plushy", 16, 600_000, 1024) {
+            let g = crate::fuzzdec::decode_genes(&bytes, &t);
+            let mut p = Probe::default();
+            if let Err(f) = oracle(&t, &g, &mut p) {
+                ctx.violation("fuzz_plushy", &f, serde_json::to_value(&g).unwrap_or(Value::Null));
+            }
+        }
+    }
 }
 
 pub fn replay(ctx: &mut Ctx, sub: &str, case: &Value) {
